@@ -953,6 +953,20 @@ func (fr *Frame) guardedAccess(site ssa.Instruction, addr ssa.Value, write bool,
 	if !applies || createdHere(fa.X, 0) {
 		return
 	}
+	if gd.Mutex == "atomic" {
+		// declared "guarded (*T).f by atomic": only sync/atomic may touch the field
+		fr.callSeq["guarded"]++
+		kind := "read"
+		if write {
+			kind = "write"
+		}
+		nm := fmt.Sprintf("%s/%s/guarded[%s.%s by atomic]/%s#%d", vc.prop, vc.qname, gd.Recv, gd.Field, kind, fr.callSeq["guarded"])
+		if fr.parent != nil {
+			nm += " in " + QualName(fr.fn)
+		}
+		vc.oblige("guarded", nm, fmt.Sprintf("plain %s of %s.%s (atomic-only field)", kind, gd.Recv, gd.Field), reach, "false", site.Pos(), true)
+		return
+	}
 	mi := -1
 	for i := 0; i < sT.NumFields(); i++ {
 		if sT.Field(i).Name() == gd.Mutex {
